@@ -334,8 +334,13 @@ def r3(ctx):
     swapped_children = set()
     for ps in sums:
         sw = calls_named(ps, "self._swap")
-        both = ps.has("%s < self.heap.size()" % R, True)
-        left_only = ps.has("%s < self.heap.size()" % R, False) and ps.has("%s < self.heap.size()" % L, True)
+        # left child index < right child index (C18.R3 index-arithmetic): right in heap => left in heap, left outside => right outside
+        r_in = ps.has("%s < self.heap.size()" % R, True)
+        l_out = ps.has("%s < self.heap.size()" % L, False)
+        r_out = ps.has("%s < self.heap.size()" % R, False) or l_out
+        l_in = ps.has("%s < self.heap.size()" % L, True) or r_in
+        both = r_in
+        left_only = r_out and l_in and not l_out
         if sw:
             first = sw[0][1]
             ch = [u(a_) for a_ in first.args if u(a_) != idx]
@@ -361,7 +366,7 @@ def r3(ctx):
             elif left_only:
                 fine = lowf(ps, idx, L, False)
             else:
-                fine = ps.has("%s < self.heap.size()" % R, False) and ps.has("%s < self.heap.size()" % L, False)
+                fine = l_out
             if not fine and lacking is None:
                 lacking = ps
     ctx.ob(sdn.qual, "sift-down-stops-only-above-both-children", lacking is None and n_quiet >= 3, sdn.loc(), "on each of the %d paths that end without a swap the node was compared with its larger existing child (or has none) and found not lower" % n_quiet if lacking is None else "_sift_down can stop although the node was never compared with its larger child (e.g. both children equal): the heap order is left violated", dcfg.describe_path(lacking.path) if lacking else None)
@@ -385,7 +390,32 @@ def r3(ctx):
     vsums = pathfx.summaries(vcfg)
     vloops = [n for n in walk_function(vl.node) if isinstance(n, ast.For)]
     prob = None
-    if len(vloops) != 1 or not vsums:
+    vwh = [n for n in walk_function(vl.node) if isinstance(n, ast.While)]
+    if not vloops and len(vwh) == 1:
+        # second form: skip the equal common prefix with a cursor, then let the first differing element (or the lengths) decide
+        #   i = 0; common = min(size(a), size(b)); while i < common and a[i] == b[i]: i += 1
+        #   if i < common: return a[i] < b[i];  return size(a) < size(b)
+        w = vwh[0]
+        okB = None
+        if len(w.body) == 1 and isinstance(w.body[0], ast.AugAssign) and isinstance(w.body[0].op, ast.Add) and u(w.body[0].value) == "1" and isinstance(w.body[0].target, ast.Name):
+            iv = w.body[0].target.id
+            fe = lambda e_: u(util.expand_single_defs(vl.node, e_, keep=(iv, a, b)))
+            init = [v_ for _, v_ in util.assignments_to(vl.node, iv) if isinstance(v_, ast.AST)]
+            at = {(fe(ast.parse(t_, mode="eval").body), p_) for t_, p_ in atoms(w.test, True)}
+            sz = ("%s[0].size()" % a, "%s[0].size()" % b)
+            bound_ok = any(p_ and t_ in ("%s < min(%s, %s)" % (iv, sz[0], sz[1]), "%s < min(%s, %s)" % (iv, sz[1], sz[0])) for t_, p_ in at)
+            eq_ok = any(p_ and t_ in ("%s[0][%s] == %s[0][%s]" % (a, iv, b, iv), "%s[0][%s] == %s[0][%s]" % (b, iv, a, iv)) for t_, p_ in at)
+            blk_ = w.parent.body
+            k_ = [j_ for j_, x_ in enumerate(blk_) if x_ is w][0]
+            tail = blk_[k_ + 1:]
+            form = len(init) == 1 and u(init[0]) == "0" and bound_ok and eq_ok and len(at) == 2 and isinstance(w.test, ast.BoolOp) and isinstance(w.test.op, ast.And)
+            if form and len(tail) == 2 and isinstance(tail[0], ast.If) and not tail[0].orelse and len(tail[0].body) == 1 and isinstance(tail[0].body[0], ast.Return) and isinstance(tail[1], ast.Return):
+                t0 = {(fe(ast.parse(t_, mode="eval").body), p_) for t_, p_ in atoms(tail[0].test, True)}
+                within = t0 == {("%s < min(%s, %s)" % (iv, sz[0], sz[1]), True)} or t0 == {("%s < min(%s, %s)" % (iv, sz[1], sz[0]), True)}
+                r1, r2 = fe(tail[0].body[0].value), fe(tail[1].value)
+                okB = within and r1 == "%s[0][%s] < %s[0][%s]" % (a, iv, b, iv) and r2 == "%s < %s" % sz
+        ctx.ob(vl.qual, "lexicographic-lower", okB, vl.loc(), "scores compare lexicographically (equal prefix skipped, first differing element decides, otherwise the shorter vector is lower)" if okB else ("_vector_score_lower (prefix-skipping form) does not return `first[i] < second[i]` at the first difference and `size(first) < size(second)` otherwise" if okB is False else "_vector_score_lower is not one loop over the common prefix followed by a length comparison"))
+    elif len(vloops) != 1 or not vsums:
         ctx.ob(vl.qual, "lexicographic-lower", None, vl.loc(), "_vector_score_lower is not one loop over the common prefix followed by a length comparison")
     else:
         ivar = u(vloops[0].target)
